@@ -1003,7 +1003,14 @@ impl Sim {
         for (token, kind) in cfg.listeners.iter().enumerate() {
             match kind {
                 LKind::Tcp => {
-                    let std_l = std::net::TcpListener::bind("127.0.0.1:0")?;
+                    // listen backlog 1024: schedules may leave more than 128 clients pending (std's default backlog)
+                    let std_l: std::net::TcpListener = {
+                        use socket2::{Domain, Socket, Type};
+                        let s = Socket::new(Domain::IPV4, Type::STREAM, None)?;
+                        s.bind(&"127.0.0.1:0".parse::<std::net::SocketAddr>().unwrap().into())?;
+                        s.listen(1024)?;
+                        s.into()
+                    };
                     std_l.set_nonblocking(true)?;
                     let target = std_l.local_addr()?.to_string();
                     let lst = MioListener::from(std_l);
